@@ -205,6 +205,14 @@ impl Db {
         if rebuild {
             log::info!("rebuilding search index at {}", config.index_path.display());
 
+            // The contents of the index are about to change. Existing metadata must
+            // not vouch for it while that happens, nor afterwards should we be
+            // interrupted between the commit and the point where the new state is
+            // recorded: it describes what the index used to contain.
+            if !in_memory && config.meta_path.is_file() {
+                fs::remove_file(&config.meta_path)?;
+            }
+
             #[cfg(feature = "verif")]
             crate::verif::point("rebuild.start", "", 0, 0)?;
             // Use a single indexing thread: with several threads the order of documents
